@@ -233,7 +233,7 @@ func (m *SlidingWindowMetric) metricItemFromBuckets(ts uint64, ws []*BucketWrap)
 		}
 		mb, ok := mi.(*MetricBucket)
 		if !ok {
-			logging.Error(errors.New("type assert failed"), "Fail to do type assert in SlidingWindowMetric.metricItemFromBuckets()", "bucketStartTime", w.BucketStart, "expectType", "*MetricBucket", "actualType", reflect.TypeOf(mb).Name())
+			logging.Error(errors.New("type assert failed"), "Fail to do type assert in SlidingWindowMetric.metricItemFromBuckets()", "bucketStartTime", atomic.LoadUint64(&w.BucketStart), "expectType", "*MetricBucket", "actualType", reflect.TypeOf(mb).Name())
 			return nil
 		}
 		item.PassQps += uint64(mb.Get(base.MetricEventPass))
@@ -271,7 +271,7 @@ func (m *SlidingWindowMetric) metricItemFromBucket(w *BucketWrap) *base.MetricIt
 		BlockQps:    uint64(mb.Get(base.MetricEventBlock)),
 		ErrorQps:    uint64(mb.Get(base.MetricEventError)),
 		CompleteQps: uint64(completeQps),
-		Timestamp:   w.BucketStart,
+		Timestamp:   atomic.LoadUint64(&w.BucketStart),
 	}
 	if completeQps > 0 {
 		item.AvgRt = uint64(mb.Get(base.MetricEventRt) / completeQps)
